@@ -1,6 +1,7 @@
 (* C10 — unicast delivery, bounded forwarding, content preservation.  Property theorems only;
    proofs in ForwardProofs.v.  A frame is the record of the fields forwarding reads plus ff_rest,
    which stands for every byte outside TTL, flow flags and switch block. *)
+From Verif Require Import TableSorted TableBest Gossip GossipRefine GossipNet GossipDelivers.
 From Verif Require Import Prelude Gen SwitchLabel SwitchLabelProofs Table Control Forward ForwardProofs Translated Frame TranslatedDec.
 
 (* Tie to the code: ReduceTTL(1) as tabulated from the compiled code over all 256 TTL values,
@@ -64,19 +65,20 @@ Theorem C10_deliver_preserves : forall net rlink flag fuel at_ from f b f',
 Proof. exact deliver_preserves. Qed.
 Print Assumptions C10_deliver_preserves.
 
-(* Converged mesh (every router other than b looks up a next hop that is strictly closer to b
-   and to which it has a link): a frame router a originates for b with TTL above the distance is
-   handed to b's handlers — deliver is a function, so to nobody else's — with its content. *)
-Theorem C10_converged_delivery : forall net rlink flag rank b,
+(* Converged mesh (every router of the mesh [dom] other than b looks up a next hop that is in
+   the mesh, strictly closer to b, and to which it has a link): a frame router a originates for b
+   with TTL above the distance is handed to b's handlers — deliver is a function, so to nobody
+   else's — with its content. *)
+Theorem C10_converged_delivery : forall net rlink flag rank b (dom : N -> Prop),
   (forall r, n_self (net r) = r) ->
   (forall r p l, rlink r p = Some l -> lnk_peer l = p) ->
   routable b = true ->
-  (forall r, r <> b ->
+  (forall r, dom r -> r <> b ->
     exists e m l, lookup_nearest_route (n_table (net r)) b = Some (e, m) /\
                   link_by_peer (net r) (e_nexthop e) = Some l /\ lnk_peer l = e_nexthop e /\
-                  (rank (e_nexthop e) < rank r)%nat) ->
+                  dom (e_nexthop e) /\ (rank (e_nexthop e) < rank r)%nat) ->
   forall a f,
-    a <> b -> ff_src f = a -> ff_dst f = b -> ff_sb f = [] -> is_hop_ping (ff_ty f) = false ->
+    dom a -> a <> b -> ff_src f = a -> ff_dst f = b -> ff_sb f = [] -> is_hop_ping (ff_ty f) = false ->
     (forall r, (rank r < rank a)%nat -> r <> a) ->
     N.of_nat (rank a) < ff_ttl f ->
     exists f', deliver_from_origin net rlink flag (S (rank a)) a f = Some (b, f') /\
@@ -138,3 +140,63 @@ Print Assumptions C10_source_margins.
 Theorem C10_lookup_sees_one_table_state : Gen.table_ops_serialised = true /\ Gen.lock_discipline_table = true.
 Proof. split; reflexivity. Qed.
 Print Assumptions C10_lookup_sees_one_table_state.
+
+(* ---------- C09 and C10 composed: the tables gossip builds deliver (GossipDelivers.v) ---------- *)
+(* "Converged" above is a hypothesis about the tables (a rank that decreases along next hops).
+   The mesh of announcement handlers of C09 (GossipNet.v: every router runs the handler model on its
+   own routing-table model; links symmetric, tables starting with direct-peer routes only)
+   establishes it in EVERY state it can reach, drained or not, with rank = hops of the best
+   route: a router's route to d via next hop x exists only because x forwarded the announcement
+   after adding its own, strictly shorter, route; AddRoute never makes a router's best route
+   worse (C11_add_route_never_worsens_best); a lookup returns the route with fewest hops.
+   So a frame router a originates for any router b that all routers hold a route to is handed
+   to b's handlers, with its content, provided its TTL exceeds the hop count of a's best route. *)
+Theorem C10_gossip_mesh_delivers : forall nodes adj cfg lab lat,
+  (length nodes <= 98)%nat -> (forall a, adj a a = false) -> (forall a b, adj a b = adj b a) ->
+  forall c b a f flag,
+  preach nodes adj cfg lab lat c -> routable b = true -> In a nodes -> a <> b ->
+  (forall r, In r nodes -> r <> b -> knows (c_tbl c r) b) ->
+  ff_src f = a -> ff_dst f = b -> ff_sb f = [] -> is_hop_ping (ff_ty f) = false ->
+  N.of_nat (best c b a) < ff_ttl f ->
+  exists f', deliver_from_origin (node_of nodes adj lab lat c) (rlink_of nodes adj lab lat c) flag (S (best c b a)) a f = Some (b, f') /\
+             ff_ty f' = ff_ty f /\ ff_src f' = ff_src f /\ ff_dst f' = ff_dst f /\ ff_rest f' = ff_rest f /\ ff_sb f' = [].
+Proof. exact gossip_mesh_delivers. Qed.
+Print Assumptions C10_gossip_mesh_delivers.
+
+(* With C09's reach theorem: in a connected mesh, once nothing is in flight, every router that
+   has announced is such a b. *)
+Theorem C10_quiescent_mesh_delivers : forall nodes adj cfg lab lat,
+  (length nodes <= 98)%nat -> (forall a, adj a a = false) -> (forall a b, adj a b = adj b a) ->
+  forall c b a f flag,
+  preach nodes adj cfg lab lat c -> c_flight c = [] -> connected nodes adj -> (exists id, In (id, b) (c_anns c)) ->
+  routable b = true -> In a nodes -> In b nodes -> a <> b ->
+  ff_src f = a -> ff_dst f = b -> ff_sb f = [] -> is_hop_ping (ff_ty f) = false ->
+  N.of_nat (best c b a) < ff_ttl f ->
+  exists f', deliver_from_origin (node_of nodes adj lab lat c) (rlink_of nodes adj lab lat c) flag (S (best c b a)) a f = Some (b, f') /\
+             ff_ty f' = ff_ty f /\ ff_src f' = ff_src f /\ ff_dst f' = ff_dst f /\ ff_rest f' = ff_rest f /\ ff_sb f' = [].
+Proof. exact quiescent_mesh_delivers. Qed.
+Print Assumptions C10_quiescent_mesh_delivers.
+
+(* the invariant behind it, for every reachable state: a route's next hop is a neighbour that is
+   the destination or holds a strictly shorter route *)
+Theorem C10_routes_backed_by_next_hop : forall nodes adj cfg lab lat,
+  (length nodes <= 98)%nat -> (forall a, adj a a = false) -> (forall a b, adj a b = adj b a) ->
+  forall c, preach nodes adj cfg lab lat c ->
+  forall r e, In e (c_tbl c r) ->
+    In (e_nexthop e) (neighbours nodes adj r) /\
+    (e_nexthop e = e_dst e \/ (2 <= e_thops e /\ reach_le (c_tbl c (e_nexthop e)) (e_dst e) (e_thops e - 1))).
+Proof.
+  intros nodes adj cfg lab lat H1 H2 H3 c Hp r e He.
+  destruct (preach_inv nodes adj cfg lab lat H1 H2 H3 c Hp) as [_ (_ & Hent & _)]. exact (Hent r e He).
+Qed.
+Print Assumptions C10_routes_backed_by_next_hop.
+
+(* non-vacuity: two routers with routable addresses, one announces, the other handles it; the
+   hypotheses hold and the frame is delivered with TTL 31 *)
+Example C10_gossip_mesh_nonvacuous :
+  exists c, preach gx_nodes ex_adj ex_cfgs ex_lab ex_lat c /\ routable gx_b = true /\
+            (forall r, In r gx_nodes -> r <> gx_b -> knows (c_tbl c r) gx_b) /\
+            N.of_nat (best c gx_b gx_a) < 32 /\
+            deliver_from_origin (node_of gx_nodes ex_adj ex_lab ex_lat c) (rlink_of gx_nodes ex_adj ex_lab ex_lat c) (fun _ _ => 0)
+              (S (best c gx_b gx_a)) gx_a (mkFF 32 0 Gen.mt_router_ping gx_a gx_b [] 77) = Some (gx_b, mkFF 31 0 Gen.mt_router_ping gx_a gx_b [] 77).
+Proof. exact gossip_delivers_nonvacuous. Qed.
